@@ -347,7 +347,7 @@ Lay(cells) == [i \in 1..Len(cells) |-> <<IF cells[i].c \in {"count", "len"} THEN
 Emit ==
     IsCase =>
       LET cells == Encode(x)
-          base == [len |-> LenOf(x), announced |-> LenOf(x), bytes |-> Flatten(cells), counts |-> CountCells(cells)]
+          base == [len |-> LenOf(x), announced |-> LenOf(x), bytes |-> Flatten(cells), counts |-> CountCells(cells), write_same |-> TRUE]
           rt == IF Consistent(x) THEN [back_equal |-> TRUE] ELSE <<>>
           cross == IF wf THEN [cfkit_ok |-> TRUE, duke_ok |-> TRUE] ELSE <<>>
       IN PrintT(ToJson([op |-> "value", cls |-> cls, wide |-> HasWide(x), wf |-> wf, x |-> x, lay |-> Lay(cells),
